@@ -61,10 +61,10 @@ P_TARGETS = []
 BUDGET = {'quick': 33.0, 'thorough': 420.0}
 CHUNK = 24
 BOUNDS = {
-    'quick': {'molecules': 'fixed list (21 hand-written + 11 E/Z), 53 single fragments, 180 ordered pairs, 26 homopolymers, '
+    'quick': {'molecules': 'fixed list (21 hand-written + 11 E/Z), 53 single fragments, 112 ordered pairs, 26 homopolymers, '
                            '120 seeded random assemblies (<= 6 beads, <= 1 ring of beads, shared-atom chains); '
                            'weighted: 81 fixed + 250 seeded random',
-              'roundtrip': '6 labelings x {no conformer, conformer} + implicit-hydrogen form x 2 labelings',
+              'roundtrip': '6 labelings without conformer, 3 of them also with conformer, + implicit-hydrogen form x 2 labelings',
               'embed': '3 labelings per molecule (resolver keys, permuted+shuffled, gapped+reversed)',
               'fmap': '4 labelings x 3 position seeds x 1 translation per weighted molecule',
               'max_atoms': 'about 80'},
@@ -137,8 +137,10 @@ SHIFTS = [[10.0, 0.0, 0.0], [-3.5, 7.25, 100.0], [0.001, -0.002, 0.003], [1000.0
 
 
 def _mol_cases(s, tier, idx):
-    for lab in RT_LABELS[tier]:
+    for li, lab in enumerate(RT_LABELS[tier]):
         for conf in (False, True):
+            if conf and tier == 'quick' and li in (1, 4, 5):
+                continue
             yield {'part': 'roundtrip', 'cgs': s, 'label': lab, 'form': 'explicit', 'conformer': conf, 'rseed': 11 + idx % 5}
     for lab in RT_IMPLICIT[tier]:
         yield {'part': 'roundtrip', 'cgs': s, 'label': lab, 'form': 'implicit', 'conformer': False, 'rseed': 0}
